@@ -412,7 +412,7 @@ def cmd_check(args):
                     r3, o3 = replay_fuzz(bins[j["engine"]], tgt, mp)
                     if r3 != 0:
                         ap, o2 = mp, o3
-                heads = [l for l in o2.splitlines() if "C06-VIOLATION" in l or "ERROR: AddressSanitizer" in l or "runtime error:" in l or "SUMMARY" in l]
+                heads = [l for l in o2.splitlines() if "FUZZ-VIOLATION" in l or "ERROR: AddressSanitizer" in l or "runtime error:" in l or "SUMMARY" in l]
                 what = (heads[0][:300] if heads else "target aborted")
             h = hashlib.sha1(open(ap, "rb").read()).hexdigest()[:12]
             dst = os.path.join(viol_dir, "%s_%s_%s.bin" % (pid, tgt, h))
@@ -502,7 +502,7 @@ def cmd_replay(args):
     meta = None
     if path.endswith(".json"):
         meta = json.load(open(path))
-        if meta.get("kind") in ("program", "program17", "program13"):
+        if meta.get("kind") in ("program", "program17", "program13", "program03"):
             from vlib import compiled as COMPILED
             return COMPILED.replay(path)
     elif os.path.exists(path + ".meta.json"):
